@@ -4,7 +4,7 @@ from checks.enginelib import *
 META = {
     "text": 'Lean: Guard instantiated for references; theorems reference_unique over all accepted event sequences, commit_needs_miss, refused_changes_nothing / found_changes_nothing / loser_changes_nothing (a request whose reservation is refused or whose lookup finds the reference leaves the state unchanged and no entry with the reference is accepted from it). Tie: trace validation (guard-ref); oracle: committed transactions per reference.',
     "note": 'Trusted: Lean kernel; event extraction.',
-    "technique": 'Lean 4 proof (Guard invariant) + trace validation + per-reference oracle',
+    "technique": 'Lean 4 proof (Guard invariant) + trace validation + per-reference oracle + regenerated commander skeleton (extract/commander -> Generated/Commander.lean on every run): well-formedness of every control path by decide, refinement of this component by the interpreted skeleton under every schedule, observed runs re-executed in the skeleton system',
     "design_ref": '5 (C11)',
 }
 
